@@ -280,6 +280,20 @@ class StateWorld(Run):
         elif kind in ("fmap", "bmap", "fbmap"):
             w = rand_word(rng, m)
             spec["word"] = sut.strs(w)
+        if m >= 2 and kind != "named" and spec.get("ctor") != "rotation_gate" and \
+                rng.random() < (0.5 if m == n and kind == "gen" else 0.12):
+            # the qubits handed to the constructor in a non-ascending order (cyclic shifts, swaps,
+            # arbitrary permutations).  What such a gate means is the package's business
+            # (captured); that backward undoes forward, compile() keeps it and a circuit applies
+            # it like the gate alone does is judged as for any other gate
+            order = list(range(m))
+            while order == sorted(order):
+                if rng.random() < 0.5:
+                    k = rng.randrange(1, m)
+                    order = order[k:] + order[:k]
+                else:
+                    rng.shuffle(order)
+            spec["order"] = order
         elif kind == "named":
             if m == 2 and rng.random() < 0.7:
                 spec["name"] = "CNOT"
@@ -300,6 +314,33 @@ class StateWorld(Run):
         kind = spec["kind"]
         if max(q) >= self.n:
             raise Skip()
+        order = spec.get("order")
+        if order is not None and kind in ("gen", "fmap", "bmap", "fbmap"):
+            if sorted(order) != list(range(len(q))):
+                raise Skip()
+            qp = [q[i] for i in order]
+            if kind == "gen":
+                G = rm.pparse(spec["G"])
+                if len(G[0]) != len(q):
+                    raise Skip()
+                if spec.get("ctor") == "rotation_gate_q":
+                    if self.S.name != "numpy":
+                        raise Skip()
+                    gate = pc.clifford_rotation_gate(self.S.mk_pauli(G), np.array(qp))
+                else:
+                    gate = pc.CliffordGate(*qp)
+                    gate.set_generator(self.S.mk_pauli(G))
+            else:
+                w = sut.parse_list(spec["word"])
+                if any(len(g[0]) != len(q) for g in w):
+                    raise Skip()
+                gate = pc.CliffordGate(*qp)
+                if kind in ("fmap", "fbmap"):
+                    gate.set_forward_map(self.S.mk_map(word_images(len(q), w)))
+                if kind in ("bmap", "fbmap"):
+                    gate.set_backward_map(self.S.mk_map(word_images(len(q), inverse_word(w))))
+            self.stats["config:gate_qubits_permuted"] += 1
+            return gate, self.capture_gate(gate, sorted(int(x) for x in gate.qubits))
         if kind == "gen":
             G = rm.pparse(spec["G"])
             if spec.get("ctor") == "rotation_gate_q":
@@ -361,7 +402,9 @@ class StateWorld(Run):
         """semantics of a gate as the package's own action on the local identity list."""
         m = len(qubits)
         g2 = gate.copy()
-        g2.qubits = tuple(range(m))
+        # (the relative order of the gate's qubits is kept: 3,0,2 -> 2,0,1)
+        asc = sorted(int(x) for x in gate.qubits)
+        g2.qubits = tuple(asc.index(int(x)) for x in gate.qubits) if len(asc) == m else tuple(range(m))
         ident = self.S.mk_list(rm.identity_images(m))
         fwd = sut.list_to_ref(g2.forward(ident))
         ident = self.S.mk_list(rm.identity_images(m))
